@@ -106,7 +106,7 @@ def gen_case(rng):
         t = gen_typ(rng)
         params.append({"name": nm, "typ": t, "doc": rng.choice(DOCS), "default": gen_default(rng, t)})
     return {"params": params, "doc": rng.choice(["", "Prose description of the thing.", "Two lines\nof prose."]),
-            "with_return": rng.random() < 0.3}
+            "with_return": rng.random() < 0.3, "return_shape": rng.choice(["typ+doc", "typ+doc", "typ", "doc"])}
 
 
 def to_ir(case):
@@ -119,7 +119,8 @@ def to_ir(case):
             e["default"] = py_default(p["default"])
         ir["params"][p["name"]] = e
     if case["with_return"]:
-        ir["returns"] = OrderedDict((("return_type", {"typ": "int", "doc": "the result"}),))
+        shape = case.get("return_shape", "typ+doc")
+        ir["returns"] = OrderedDict((("return_type", {k: v for k, v in (("typ", "int"), ("doc", "the result")) if k in shape}),))
     return ir
 
 
@@ -159,7 +160,8 @@ def worker(batch):
                 s = cdd.json_schema.emit.json_schema(copy.deepcopy(to_ir(case)))
                 s2 = json.loads(json.dumps(s))
                 back = cdd.json_schema.parse.json_schema(copy.deepcopy(s2))
-            return s2, {k: dict(v) for k, v in back["params"].items()}
+            r_ = (back.get("returns") or {}).get("return_type")
+            return s2, {k: dict(v) for k, v in back["params"].items()}, back.get("doc"), (None if r_ is None else {k: r_.get(k) for k in ("typ", "doc") if r_.get(k) is not None})
         impl.append(guarded(f, c, 20))
     models = call_many("js_emit", [[[p["name"], [enc_typ(p["typ"]), p["doc"], enc_default(p["default"])]] for p in c["params"]]
                                    for c in batch])
@@ -170,7 +172,18 @@ def worker(batch):
             cls = "C06/raises/single-member-literal" if single and "elts" in str(v) else "C06/raises/" + str(v).split(":")[0][:30]
             out["items"].append({"cls": cls, "case": c, "detail": v})
             continue
-        schema, back = v
+        schema, back, back_doc, back_ret = v
+        # the interface's own description and its return entry come back too
+        want_ret = (to_ir(c).get("returns") or {}).get("return_type")
+        want_ret = None if want_ret is None else {k: want_ret[k] for k in ("typ", "doc") if want_ret.get(k) is not None}
+        if (back_doc or "") != (c["doc"] or ""):
+            out["items"].append({"cls": "C06/roundtrip/interface-description" + ("/with-return" if want_ret else ""), "case": c,
+                                 "detail": "description %r came back as %r" % (c["doc"], back_doc)})
+        if back_ret != want_ret:
+            kind = "lost" if back_ret is None else "invented" if want_ret is None else "changed"
+            shape = "" if want_ret is None else "/" + "+".join(sorted(want_ret))
+            out["items"].append({"cls": "C06/roundtrip/returns-%s%s" % (kind, shape), "case": c,
+                                 "detail": "return entry %r came back as %r" % (want_ret, back_ret)})
         out["params"] += len(c["params"])
         props_m, req_m, parsed_m, rendered = m
         # --- correspondence: properties, required, parsed params
